@@ -38,7 +38,7 @@ func ReplayMain(path string) int {
 		fmt.Println("(the replay section holds the inputs; no unit recorded)")
 		return 0
 	}
-	for i, u := range ck.Units(tier, seed) {
+	for i, u := range unitsFor(ck, tier, seed) {
 		if u.Name != unit {
 			continue
 		}
